@@ -282,7 +282,7 @@ def c_fastq_edit(rng):
         r = rng.random()
         h = rng.choice(pool)
         if r < 0.6:
-            s = g_seq(rng, NUC, nonempty=True)
+            s = g_seq(rng, NUC, nonempty=rng.random() < 0.9)     # an empty sequence must be rejected (ValueError)
             q = g_scores(rng, off, len(s), cpl)
             ops.append(f"fq_set {es(h)} {es(s)} {ei(q)}")
             hist.append(["set", h, s, q])
@@ -390,9 +390,6 @@ def g_gff_entry(rng, valid=True):
         k = g_text(rng) or "k"
         v = g_text(rng)
         attrs[k] = v
-    if valid and attrs:
-        last = list(attrs)[-1]
-        attrs[last] = attrs[last].rstrip() if attrs[last].rstrip() else "v"
     if rng.random() < 0.5:
         attrs = {"ID": "f" + str(rng.randint(0, 9)), **attrs}
     score = rng.choice([None, None, 1.0, 0.5, 1e-30, 12345.678])
@@ -496,11 +493,11 @@ def g_gb_field(rng):
         # content of these two fields is stored without indentation: valid lines start with a blank
         content = [rng.choice(["     gene            1..5", "        1 acgt", "                     /note=\"x\""]) for _ in range(rng.choice([0, 1, 2]))]
     else:
-        content = [ln() for _ in range(rng.choice([1, 1, 2, 3]))]
+        content = [ln() for _ in range(rng.choice([1, 1, 1, 2, 3, 0]))]     # [] must be rejected (ValueError)
     subs = {}
     if name.upper() not in ("FEATURES", "ORIGIN") and rng.random() < 0.4:
         for _ in range(rng.choice([1, 2])):
-            subs[rng.choice(["ORGANISM", "authors", "TITLE", "Journal"])] = [ln() for _ in range(rng.choice([1, 2]))]
+            subs[rng.choice(["ORGANISM", "authors", "TITLE", "Journal"])] = [ln() for _ in range(rng.choice([1, 2, 1, 2, 0]))]
     return name, content, subs
 
 
@@ -582,7 +579,7 @@ def c_genbank(rng):
     for _ in range(rng.choice([0, 1, 2, 3])):
         feats.append({"key": rng.choice(["gene", "CDS", "source", "misc_feature", "regulatory", "a-15-char-key__"]),
                       "locs": g_locs(rng), "qual": g_qual(rng)})
-    return {"kind": "genbank_rt", "spec": {"o": "genbank", "format": fmt, "seq": seq, "start": rng.choice([1, 1, 0, 7, 100, 999999]), "features": feats}}
+    return {"kind": "genbank_rt", "spec": {"o": "genbank", "format": fmt, "seq": seq, "start": rng.choice([1, 1, 0, 7, 100, 999999, -5, -61, -1000]), "features": feats}}
 
 
 def c_gff_annot(rng):
@@ -936,7 +933,14 @@ def _o_fastq(spec):
     for step in spec["hist"]:
         if step[0] == "set":
             _, h, s, q = step
-            f[h] = (s, np.array(q, dtype=int))
+            try:
+                f[h] = (s, np.array(q, dtype=int))
+            except ValueError:
+                if len(s) == 0:
+                    continue        # an empty sequence cannot be represented: rejected, file unchanged
+                raise
+            if len(s) == 0:
+                return v + [("C12/fastq/empty-sequence-written-unreadable", "an empty sequence was accepted")]
             ref.pop(_norm(h), None)
             ref[_norm(h)] = (s, q)
         else:
@@ -1103,7 +1107,12 @@ def _o_gff_entries(spec):
     exp = []
     for e in spec["entries"]:
         t = _entry_tuple(e)
-        f.append(*t)
+        try:
+            f.append(*t)
+        except ValueError:
+            if t[0].strip()[:1] in ("#", ">", "") or not t[1].strip() or not t[2].strip():
+                continue    # rejected: such a line would be a comment / FASTA header / have an empty column
+            raise
         exp.append((t[0].strip(), t[1].strip(), t[2].strip()) + t[3:])
     g = _reread(gff.GFFFile, f)
     got = [g[i] for i in range(len(g))]
@@ -1187,6 +1196,11 @@ def _o_gb_hist(spec):
                 del f[step[1]]; del ref[step[1]]
         except (IndexError, InvalidFileError):
             continue
+        except ValueError:
+            nm = step[-3].strip().upper()
+            if nm not in ("FEATURES", "ORIGIN") and (not step[-2] or any(not x for x in (step[-1] or {}).values())):
+                continue    # a field / subfield without content lines is rejected, file unchanged
+            raise
         view = [f[i] for i in range(len(f))]
         g = _reread(GenBankFile, f)
         back = [g[i] for i in range(len(g))]
